@@ -8,7 +8,9 @@
    the code's loops:
      SumIsFFFF      with the written checksum the sum over pseudo header and upper layer is 0xFFFF;
      FlipsDetected  flipping any single bit of the covered data (pseudo-header fields incl. length and
-                    protocol, upper layer incl. an odd last byte) makes the sum differ from 0xFFFF.
+                    protocol, upper layer incl. an odd last byte and the checksum field) makes the sum
+                    differ from 0xFFFF;
+     OnlyTwinVerifies  besides the written checksum only its +-0 twin (0x0000 <-> 0xFFFF) verifies.
    Constant OddTail = FALSE is the "safeBoundary off by one" variant (the odd last byte is dropped):
    TLC then finds FlipsDetected violated (WireCsumMC.oddtail.cfg, demonstration only).            *)
 EXTENDS WireOps, TLC
@@ -64,15 +66,26 @@ TypeOK == pc \in {"pick", "pseudo", "upper", "fold", "done"} /\ csum >= 0
 SumIsFFFF == pc = "done" => Verifies(in.a[1], in.a[2], in.a[3], in.a[4], in.proto, out)
 
 \* every single-bit flip of the covered data: the four address-header fields, the length and protocol
-\* fields of the pseudo header, the upper layer (header and payload; the checksum field itself excluded)
+\* fields of the pseudo header, the upper layer (header, payload and the checksum field itself)
 FlipsDetected ==
     pc = "done" =>
       LET ph == PseudoHeader(in.a[1], in.a[2], in.a[3], in.a[4], Len(out), in.proto)
-          o == CkOff(in.proto)
           sph == WordSum(ph)
           sout == WordSum(out) IN
       /\ \A i \in 1..Len(ph), k \in 0..7 :
             Fold16(WordSum(FlipAt(ph, i, k)) + sout) # 65535
       /\ \A i \in 1..Len(out), k \in 0..7 :
-            i \notin {o + 1, o + 2} => Fold16(sph + WordSum(FlipAt(out, i, k))) # 65535
+            Fold16(sph + WordSum(FlipAt(out, i, k))) # 65535
+
+\* The only other checksum value that verifies is the documented +-0 twin of one's-complement arithmetic
+\* (0x0000 <-> 0xFFFF: all 16 bits differ, so no single-bit flip reaches it): checked for every value one
+\* bit or one unit away from the written checksum and for the boundary values.
+OnlyTwinVerifies ==
+    pc = "done" =>
+      LET o == CkOff(in.proto)
+          ck == U16At(out, o + 1)
+          s0 == CsumTotal(in.a[1], in.a[2], in.a[3], in.a[4], in.proto, out) - ck
+          cands == {0, 1, 32767, 32768, 65534, 65535, (ck + 1) % 65536, (ck + 65535) % 65536}
+                     \cup {IF (ck \div 2 ^ k) % 2 = 1 THEN ck - 2 ^ k ELSE ck + 2 ^ k : k \in 0..15} IN
+      \A c \in cands : (Fold16(s0 + c) = 65535) <=> (c = ck \/ {c, ck} = {0, 65535})
 =============================================================================
